@@ -825,6 +825,13 @@ def lock_lifetime_rule(chk, prog, R):
             continue
         counted = any(n.get('kind') == 'ForStmt' and flow.induction(n) is not None and any(any(m is st_ for m in walk(n)) for st_ in steps)
                       for n in walk(lf.body))
+        if not counted:
+            # `for (i = 0; i < n && sqlite3_step(s) == SQLITE_ROW; i++)`: a second conjunct can end the loop while the statement is still on a row
+            for n in walk(lf.body):
+                if n.get('kind') in ('ForStmt', 'WhileStmt'):
+                    cond_ = flow.for_parts(n)[1] if n.get('kind') == 'ForStmt' else kids(n)[0]
+                    if cond_ is not None and any(any(m is st_ for m in walk(cond_)) for st_ in steps) and '&&' in lf.unit.text(cond_):
+                        counted = True
         if not drained and not counted:
             chk.instance(R, '%s %s: statement `%s` is not finalized and the loop that steps it has a shape that is not recognised: not decided' %
                          (lf.unit.where(ln), lf.name, lv), 'undecided')
